@@ -207,6 +207,16 @@ def Args.leftLinear {A V : Type} : Args A V → Bool
 end
 
 mutual
+/-- every node has as many operands as its arity (what the view constructors guarantee); sub-views in any position -/
+def View.wellFormed {A V : Type} : View A V → Bool
+  | .leaf _ => true
+  | .node f _ args => (args.length == f.arity) && Args.wellFormed args
+def Args.wellFormed {A V : Type} : Args A V → Bool
+  | .nil => true
+  | .cons v rest => View.wellFormed v && Args.wellFormed rest
+end
+
+mutual
 /-- SPEC of the operand list: leaves in reading order, by an accumulator passed right to left (independent of `operandsOf`) -/
 def View.leavesAcc {A V : Type} : View A V → List Nat → List Nat
   | .leaf i, acc => i :: acc
